@@ -155,7 +155,7 @@ def body(chk):
                         chk.report(site, f"{replay['expr']} fails: {out[2]}; interval arithmetic gives [{float(ref[0])}, {float(ref[1])}]", replay)
                     elif not const_eq(out, ref):
                         chk.report(site, f"{replay['expr']} = [{out[1][0]}..{out[1][-1]}, {out[2][0]}..{out[2][-1]}] is not the constant p-box of the interval result [{float(ref[0])}, {float(ref[1])}]", replay)
-                    if not mixed and (d != 'i' or (it % 12 == 0 and op in ('Add', 'Mul'))):
+                    if not mixed and (d != 'i' or it % 3 == 0):
                         coq_case(op, d, view(A), view(B), out, site, replay)
 
     # ---- B: interval op precise distribution = the distribution shifted / scaled by the interval ----
@@ -190,7 +190,7 @@ def body(chk):
                         k = next(i for i in range(len(refL)) if not (close(out[1][i], refL[i], 64) and close(out[2][i], refR[i], 64)))
                         chk.report(site, f"interval {list(iv)} {op} {dsp['family']}{dsp['params']} ({order}, dependency {d}) is not the distribution shifted/scaled by the interval: "
                                    f"step {k} is [{out[1][k]}, {out[2][k]}], expected [{float(refL[k])}, {float(refR[k])}]", replay)
-                    if d != "bare" and d != "i":
+                    if d != "bare":
                         coq_case(op, d, view(A), view(B), out, site, replay)
 
     # ---- C: every pairing of operand kinds, both orders, bare operators: same p-box as converting every operand first ----
